@@ -24,6 +24,7 @@ CURATED = [
     "a @ b", "a // b", "a % b", "a << b >> c", "a | b ^ c & d", "(a | b) & c", "a is not b", "a not in xs",
     "a < b <= c != d", "f(a)(b)[c].x", "{a}", "{a: b}", "{}", "[]", "[a for a in xs]", "f(a for a in xs)",
     "a if b else c or d", "(a if b else c) or d", "lambda p, q: p + q", "lambda: a", "lambda *va: va", "lambda p=1: p",
+    "lambda p, *, k1: p", "lambda *, k1, k2=0: k1", "lambda *va, k1: k1", "lambda **kw: kw", "lambda p, /, q: q", "lambda p, q=1, *va, k1, **kw: p",
 ]
 
 
@@ -182,10 +183,69 @@ def run(ctx: Ctx) -> None:
             ctx.obligation("correspondence: Lib/Stringify.v stringify = refurb.checks.common.stringify on every harvested node",
                            not mism, "; ".join(mism[:6]))
             ctx.extra["tie_nodes"] = len(cases)
+        pasted_operands(ctx, common, cases, b.ok)
     finally:
         shutil.rmtree(td, ignore_errors=True)
     fragment_scan(ctx)
     ctx.resolve_broken({}, b.first_error)
+
+
+PASTE_CONTEXTS = {            # operator -> (how the pasted text is used, the same with the source in parentheses)
+    ".": "{}.attr", "not": "not {}", "==": "{} == Q", "in": "Q in {}", "or": "Q or {}", "and": "Q and {}", "|": "{} | Q", "{}": "f'{{{}!r:>3}}'",
+}
+
+
+def pasted_operands(ctx: Ctx, common, cases, built: bool) -> None:
+    """stringify_operand(node, operator): the text a check pastes next to `operator` when it assembles a
+    suggestion.  Oracle: used there, it must denote the same tree as the source in parentheses used there.
+    Tie: the Coq model gives the same text."""
+    if not hasattr(common, "stringify_operand"):
+        ctx.notes.append("refurb.checks.common has no stringify_operand")
+        return
+    rng = ctx.rng
+    rows = []
+    for src, node, _ in cases:
+        for op in rng.sample(sorted(PASTE_CONTEXTS), 3):
+            try:
+                text = common.stringify_operand(node, op)
+            except Exception as e:  # noqa: BLE001
+                ctx.report("pasted-operand:crash", f"stringify_operand(`{src}`, {op!r}) raises {type(e).__name__}: {e}", {"source": src, "operator": op})
+                continue
+            rows.append((node, op, text, src))
+            ctx.case(("paste", src, op), nontrivial=len(src) > 2, sample={"source": src, "operator": op, "pasted": text} if rng.random() < 0.004 else None)
+            ctx.count(f"pasted-next-to:{op}")
+            if text == "x" or (op == "{}" and text.lstrip("(").startswith("{")) or "'" in text and op == "{}":
+                continue            # placeholder; a brace directly after the field's brace is an escape (its own matter)
+            tpl = PASTE_CONTEXTS[op]
+            want, got = norm(tpl.format(f"({src})")), norm(tpl.format(text))
+            plain = common.stringify(node)
+            if judge(plain, src, False) is not None:
+                continue            # the quote itself is already off (reported by the stringify oracle above)
+            if want is not None and got != want:
+                ctx.report(f"pasted-operand:{'syntax-error' if got is None else 'different-tree'}:{op}:{type(node).__name__}",
+                           f"stringify_operand(`{src}`, {op!r}) is `{text}`: `{tpl.format(text)}` does not denote `{tpl.format('(' + src + ')')}`",
+                           {"source": src, "operator": op, "pasted": text})
+    if built and rows:
+        shards, metas = [], []
+        for i in range(0, len(rows), 400):
+            chunk = rows[i:i + 400]
+            shards.append("Definition cs : list (expr * string * string) := [\n" + ";\n".join(
+                f"({TC.expr(node)}, {coq.coq_str(op)}, {coq.coq_str(text)})" for node, op, text, _ in chunk) + "].\n"
+                "Eval vm_compute in (fix go i l := match l with [] => [] | (e, o, t) :: r => "
+                "if String.eqb (stringify_operand e o) t then go (S i) r else i :: go (S i) r end) 0 cs.\n")
+            metas.append(chunk)
+        hdr = ("From Lib Require Import Base PyAst Equiv Stringify.\nOpen Scope list_scope.\nSet Printing Width 100000.\n")
+        res = coq.eval_shards(ctx, "operand", hdr, shards, timeout=900)
+        mism = []
+        for (rc, out, err), chunk in zip(res, metas):
+            vals = coq.parse_eval_values(out)
+            if rc != 0 or not vals:
+                mism.append("coqc failed: " + err[-300:])
+                continue
+            for i in [int(x) for x in vals[0].strip("[]").split(";") if x.strip()][:4]:
+                mism.append(f"`{chunk[i][3]}` next to {chunk[i][1]!r}: real `{chunk[i][2]}`")
+        ctx.obligation("correspondence: Lib/Stringify.v stringify_operand = refurb.checks.common.stringify_operand on every harvested node x 3 operators",
+                       not mism, "; ".join(mism[:6]))
 
 
 def judge(text: str, src: str, placeholder: bool) -> str | None:
